@@ -20,6 +20,7 @@ import (
 	"bytes"
 	"fmt"
 	"io"
+	"strings"
 
 	"github.com/go-netty/go-netty"
 	"github.com/go-netty/go-netty/codec"
@@ -87,6 +88,16 @@ func (d *delimiterCodec) HandleWrite(ctx netty.OutboundContext, message netty.Me
 		ctx.HandleWrite([][]byte{
 			// body
 			r,
+			// delimiter
+			d.delimiter,
+		})
+	case string, [][]byte, *bytes.Buffer, *bytes.Reader, *strings.Reader:
+		// in-memory messages are sent as one vectored write, like []byte: streaming them through a
+		// MultiReader would emit body and delimiter as separate writes, which concurrent writers
+		// on the same channel can interleave with their own frames.
+		ctx.HandleWrite([][]byte{
+			// body
+			utils.MustToBytes(r),
 			// delimiter
 			d.delimiter,
 		})
